@@ -390,6 +390,21 @@ theorem C11_gen_census_tracker :
     TrackerF.all.filter (fun f => trackerConv.roundTrips f) = [.headers, .tip, .height, .network, .listeners] := by
   decide
 
+/-- **C11_gen_census_monitor** (generated obligation): "the same … channel monitors" — the monitor `State` kept per
+    listener in the tracker entry derives its serialized form; the only field that is not part of it is the
+    channel id used for logging, and that one is assigned again by `ChainMonitorBase::new_from_persistence`.  In
+    particular the forget flag (`C11_refine_*`), the funding / closing heights and the swept heights (C14/C15) are
+    all stored. -/
+theorem C11_gen_census_monitor :
+    MonitorStateF.all.filter (fun f => !monitorStateSerialized f) = [.channel_id] ∧
+    monitorStateRepopulated = [.channel_id] ∧
+    monitorStateSerialized .saw_forget_channel = true := by decide
+
+/-- the values of the invoice maps (`PaymentState`: amount, payee, timestamps, fulfilled flag, type, invoice hash)
+    are stored whole -/
+theorem C11_gen_census_payment_state : ∀ f, paymentStateSerialized f = true := by
+  intro f; cases f <;> rfl
+
 /-! #### The node-request model writes what the source writes
 
 `Model/NodeReq.lean` abstracts `update_node` as `Core.updateNode` and `update_node_allowlist` as
